@@ -111,6 +111,9 @@ class RunExpectOracle(Contract):
         g['nexpect'] = g['nexpect'] + 1
         g['last_index'] = int(lab.rsplit('-', 1)[1]) if '-' in lab else None
         g['ended'] = v.raised is not None        # an unlisted EOF / TIMEOUT ends the run
+        if g.get('last_was_timeout'):
+            v.ctx.path_tags.append(('run-continued-after-a-timeout-event', 'yes'))
+        g['last_was_timeout'] = lab.lower().startswith('timeout')       # listed (an event) or not (ends the run)
         if lab.startswith('text'):
             g['pend'] = v.draw(TStr(k), 'pend')
             g['consumed'] = cat(g['consumed'], new.before, new.after)
@@ -235,7 +238,7 @@ class Run(Contract):
         mode = b.choice('mode', ['b', 's'])
         b.ghost('mode', mode)
         for g, val in (('R', ''), ('consumed', ''), ('pend', ''), ('nexpect', 0), ('nsend', 0), ('ncb', 0),
-                       ('stop_requested', False), ('last_index', None), ('last_cb_result', None), ('owed', False), ('ended', False)):
+                       ('stop_requested', False), ('last_index', None), ('last_cb_result', None), ('owed', False), ('ended', False), ('last_was_timeout', False)):
             b.ghost(g, val)
         from pyvc.engine import to_spec as _ts
         b.ghost('fate_exit', _ts(b.ctx, b.ctx.heap, b.ctx.fresh(TOpt(T.Int), 'fate_exit')) if hasattr(b, 'ctx') else None)
@@ -300,6 +303,10 @@ class Run(Contract):
         out.append(('C12:complete-output-each-piece-once',
                     Or(eq(text, g['consumed']), eq(text, cat(g['consumed'], g['pend'])))))
         out.append(('C12:nothing-dropped-at-eof-or-timeout', Implies(Not(eq(text, g['consumed'])), eq(text, g['R']))))
+        # a TIMEOUT consumes nothing: when the run stops on one - the exception, or a TIMEOUT event whose callback says
+        # stop - the text still pending is part of "the whole output up to the point it stops"
+        if g.get('last_was_timeout'):
+            out.append(('C12:pending-text-returned-when-the-run-stops-on-a-timeout', eq(text, cat(g['consumed'], g['pend']))))
         out.append(('C12:stops-only-at-eof-timeout-or-when-a-callback-says-so', Or(g['ended'], g['stop_requested'])))
         out.append(('C12:every-string-a-callback-returned-was-sent', Not(g['owed'])))
         if wes:
